@@ -2,8 +2,10 @@
   C17 — umbrella module: constructors, `parse_smt_literal` and the `str_*` functions
   (Props/C17.lean, model of src/smt_strings.rs) together with the regex side of the API
   (Props/C17Re.lean: `get_string`, `str_replace_re`, `str_replace_re_all`, pure and stateful
-  models).  `checks.d/C17.json` audits the theorems of both through this module.
+  models) and the conversions out of the crate (Props/C17Uni.lean: `is_unicode`,
+  `to_unicode_string`, the round trip through a Rust `String`).  `checks.d/C17.json` audits the theorems of both through this module.
   Import order: the regex proof files first (C17Re imports them before Props/C17).
 -/
 import SmtModel.Props.C17Re
 import SmtModel.Props.C17
+import SmtModel.Props.C17Uni
